@@ -193,9 +193,12 @@ class SimpleEventSequence(EventSequence):
       return self._events[key]
     elif isinstance(key, slice):
       events = self._events.__getitem__(key)
+      # Normalize the slice start (it may be None, negative or past the end) so
+      # that the slice carries the step offset of its first element.
+      start = key.indices(len(self._events))[0]
       return type(self)(pad_event=self._pad_event,
                         events=events,
-                        start_step=self.start_step + (key.start or 0),
+                        start_step=self.start_step + start,
                         steps_per_bar=self.steps_per_bar,
                         steps_per_quarter=self.steps_per_quarter)
 
